@@ -165,8 +165,9 @@ def collision_tx(nonce, layout):
 class World:
     '''All blocks ever created, with parent links; `best` is what the daemon reports.'''
 
-    def __init__(self, activation=4):
+    def __init__(self, activation=4, light=False):
         self.activation = activation
+        self.light = light      # keep only the tip's UTXO state (long linear chains)
         self.blocks = {}        # hash -> Block
         self.states = {}        # hash -> ChainState
         self.uid = 0
@@ -191,8 +192,12 @@ class World:
         block = Block(parent, height, txs, self.uid)
         self.blocks[block.hash] = block
         base = self.states[parent.hash] if parent else ChainState({}, [])
-        utxos = dict(base.utxos)
-        order = list(base.order)
+        if self.light and parent is not None:
+            utxos, order = base.utxos, base.order
+            del self.states[parent.hash]
+        else:
+            utxos = dict(base.utxos)
+            order = list(base.order)
         for tx in txs:
             self.txindex[tx.txid] = tx
             for prev in tx.ins:
@@ -203,7 +208,8 @@ class World:
                 if not unspendable(script, height, self.activation):
                     utxos[(tx.txid, idx)] = (script, value, height)
                     order.append((tx.txid, idx))
-        order = [o for o in order if o in utxos]
+        if not self.light:
+            order = [o for o in order if o in utxos]
         self.states[block.hash] = ChainState(utxos, order)
         self.version += 1
         return block
@@ -247,6 +253,15 @@ class World:
                         avail_set.discard(p)
                 txs.append(tx)
                 add_outputs(tx)
+        # padding: cheap generation-like transactions (the indexer skips generation inputs), used
+        # to reach block sizes of several hundred transactions for the merkle paths
+        for i in range(desc.get('pad') or 0):
+            pad_outs = desc.get('pad_outs')
+            tx = TxRec([GEN_PREV], [(SCRIPTS[9], 1)] if pad_outs is None else
+                       [(sc, 1) for sc in pad_outs[i]],
+                       in_scripts=[struct.pack('<IIQ', height, i, desc.get('nonce', 0) + self.uid)])
+            txs.append(tx)
+            add_outputs(tx)
         for t in desc.get('txs') or []:
             ins = []
             for choice in t['ins']:
@@ -318,6 +333,10 @@ class World:
         return self.extend(descs, tip=base)
 
     def set_best(self, tip):
+        if self.light and not self.mempool:
+            self.best = tip
+            self.version += 1
+            return
         old_chain = self.chain() if self.best else []
         self.best = tip
         self.version += 1
@@ -390,6 +409,23 @@ class World:
         in_scripts = [struct.pack('<I', self.version) if p == GEN_PREV else b'' for p in ins]
         tx = TxRec(ins, outs, in_scripts=in_scripts)
         if tx.txid in self.mempool or tx.txid in self.txindex:
+            return None
+        self.mempool[tx.txid] = tx
+        self.txindex[tx.txid] = tx
+        for idx, (script, value) in enumerate(tx.outs):
+            self.outpoint_table[(tx.txid, idx)] = (script, value)
+        self.version += 1
+        return tx
+
+    def mp_add_spending(self, prevouts, outs):
+        '''A mempool tx spending exactly the given (unspent) outpoints.'''
+        conf, unconf = self.mempool_spendable()
+        ok = set(conf) | set(unconf)
+        if not prevouts or any(p not in ok for p in prevouts):
+            return None
+        tx = TxRec(list(prevouts), [(SCRIPTS[s % len(SCRIPTS)], VALUES[v % len(VALUES)])
+                                    for s, v in outs])
+        if tx.txid in self.txindex:
             return None
         self.mempool[tx.txid] = tx
         self.txindex[tx.txid] = tx
